@@ -149,7 +149,7 @@ def lean_build(prop, cfg):
         rc, out, _ = sh(['lake', 'env', 'lean', audit], cwd=LEAN, timeout=1800)
         os.remove(audit)
         axioms = {}
-        for m in re.finditer(r"'([^']+)' (?:depends on axioms: \[([^\]]*)\]|does not depend on any axioms)", out.replace('\n ', ' ').replace('\n', ' ')):
+        for m in re.finditer(r"'(\S+)' (?:depends on axioms: \[([^\]]*)\]|does not depend on any axioms)", out.replace('\n ', ' ').replace('\n', ' ')):
             axioms[m.group(1)] = [a.strip() for a in (m.group(2) or '').split(',') if a.strip()]
         res['axioms'] = axioms
         bad = []
@@ -283,6 +283,17 @@ def main(argv):
     if tier not in ('quick', 'thorough'): tier = 'quick'
     seed = int(opt('--seed', os.environ.get('VERIF_SEED', '1')) or 1)
     replay = opt('--replay')
+    if replay and replay.endswith('.json'):
+        # scenario-level cases are not self-contained (they need freshly issued credentials): they are regenerated
+        # from the recorded seed and tier, which reproduces exactly the same scenario sequence
+        try:
+            obj = json.load(open(replay))
+            op = (obj.get('case') or {}).get('op', '')
+            if obj.get('kind') in ('oracle_failure', 'correspondence', 'proof_obligation', 'harness_run_failed') and op not in P.UNIT_OPS and 'seed' in obj:
+                log(f'[{prop}] replay: re-running the check with seed={obj["seed"]} tier={obj.get("tier", tier)}')
+                return main([prop, '--seed', str(obj['seed']), '--tier', obj.get('tier', tier)])
+        except Exception as e:
+            log('cannot read replay file', e)
     cfg = dict(P.PROPS[prop]); cfg['_tier'] = tier
     t0 = time.time()
     workdir = os.path.join(CACHE, 'run', f'{prop}-{os.getpid()}')
@@ -333,6 +344,27 @@ def main(argv):
                 runs.append((f['name'], f, f.get('args', [])))
         famdir = {f['name']: f for f in fams}
         for (vhfam, f, extra) in runs:
+            if f.get('external'):
+                # a harness outside the line protocol (e.g. the ctypes driver of the C ABI): summary only
+                try:
+                    s = getattr(P, f['external'])(workdir, tier, seed, sh, VH)
+                except Exception as e:
+                    s = None; err = repr(e)
+                if not s:
+                    path = write_replay(prop, dict(kind='harness_run_failed', family=f['name'], log=err if not s else '', seed=seed))
+                    violations.append((path, ' no-failing-input-found'))
+                    continue
+                for k, v in s.get('dist', {}).items():
+                    cov['dist'][k] = cov['dist'].get(k, 0) + v
+                oracle_fails.extend(s.get('oracle_failures', []))
+                cov['evaluations'] += s.get('cases', 0)
+                cov['traces_validated_against_impl'] += s.get('cases', 0)
+                for k in s.get('dist', {}):
+                    distinct.add('ext:' + k)
+                cov['families'][f['name']] = dict(cases=s.get('cases', 0))
+                if len(cov['samples']) < 6 and s.get('samples'):
+                    cov['samples'] += s['samples'][:2]
+                continue
             r = run_family(workdir, vhfam, seed, tier, extra)
             if r['rc'] != 0 or r['summary'] is None:
                 path = write_replay(prop, dict(kind='harness_run_failed', family=f['name'], rc=r['rc'], log=r['log'], seed=seed))
